@@ -25,6 +25,8 @@ pub trait Subject {
     }
     /// checks after the subject was dropped / finished (family specific, e.g. co-stream models)
     fn finish(&mut self) {}
+    /// called after the bookkeeping of every poll and every operation (set-view checks of groups)
+    fn after_step(&mut self) {}
 }
 
 #[derive(Clone, Copy, PartialEq, Eq, Debug)]
@@ -74,6 +76,15 @@ fn blocked_ok(w: &World, child: u32) -> bool {
 /// Is it legitimate for combinator k to sit Pending with no wake-up outstanding?
 fn comb_pending_ok(w: &World, k: u16) -> Result<(), String> {
     let c = &w.combs[k as usize];
+    if c.fam == Fam::Co {
+        // a concurrent-stream operation may legitimately wait only for a child that never completes
+        // (directly, or because the consumer is saturated by such children)
+        let stuck = c.children.iter().any(|&ch| {
+            let r = &w.children[ch as usize];
+            !r.finished && r.spec.never
+        });
+        return if stuck { Ok(()) } else { Err(format!("concurrent-stream operation #{} is Pending with no wake-up outstanding although none of its children is blocked", k)) };
+    }
     let mut unfinished = 0;
     for &ch in &c.children {
         let r = &w.children[ch as usize];
@@ -212,6 +223,7 @@ pub fn run(subj: Box<dyn Subject>) -> EndKind {
             Act::Op(o) => {
                 with(|w| w.ops_left -= 1);
                 subj.as_mut().unwrap().do_op(o);
+                subj.as_mut().unwrap().after_step();
                 want_poll = true;
                 ended = false;
             }
@@ -261,6 +273,7 @@ pub fn run(subj: Box<dyn Subject>) -> EndKind {
                             w.comb_poll_end(0, Last::Pending);
                             w.outcome = mix(w.outcome, 1);
                         });
+                        subj.as_mut().unwrap().after_step();
                     }
                     Ok(Polled::Done(ret)) => {
                         let rs = ret.retsig();
@@ -295,6 +308,7 @@ pub fn run(subj: Box<dyn Subject>) -> EndKind {
                             w.cfg.max_items != 0 && w.combs[0].items_out >= w.cfg.max_items as u32
                         });
                         drop(o);
+                        subj.as_mut().unwrap().after_step();
                         want_poll = true;
                         if horizon {
                             end_kind = EndKind::Horizon;
@@ -308,6 +322,7 @@ pub fn run(subj: Box<dyn Subject>) -> EndKind {
                             w.comb_poll_end(0, Last::Final);
                             w.outcome = mix(w.outcome, 9);
                         });
+                        subj.as_mut().unwrap().after_step();
                         if reusable {
                             ended = true;
                         } else {
@@ -353,6 +368,10 @@ pub fn run(subj: Box<dyn Subject>) -> EndKind {
         let leaked: Vec<usize> = with_drops(|d| (0..n).filter(|&i| d.children[i] == 0).collect());
         if !leaked.is_empty() {
             w.violate(2, || format!("children {:?} were not dropped by the time the drop of the combinator returned", leaked));
+            if w.combs[0].fam == Fam::Co {
+                let home = w.combs[0].home;
+                w.violate(home, || format!("work futures / source {:?} were still alive after the operation's future had been dropped", leaked));
+            }
         }
         w.combs[0].alive = false;
     });
